@@ -45,13 +45,13 @@ func fpbScenarios() []*scenario {
 			// by exact ratio a (10.98) would precede c (10.5) and b (10.0), and c would precede b.
 			Name: "fpb-floor",
 			Txs: []txSpec{
-				{Name: "a", Signers: s("S1"), Q: 11, R: -1},                  // floor 10, the largest fee of floor 10 at the small size
-				{Name: "b", Signers: s("S2"), Q: 10, Pad: 56},                // floor 10, exact 10.0, about twice a's fee
-				{Name: "c", Signers: s("S3"), Q: 10, RHalf: true, Pad: 21},   // floor 10, exact 10.5, fee between a's and b's
-				{Name: "d", Signers: s("S4"), Q: 11},                         // floor 11 with a's fee + 1: above b, c, f although it pays less
-				{Name: "e", Signers: s("S5"), Q: 10},                         // exact 10.0 like b, fee about half of b's
-				{Name: "f", Signers: s("S6"), Q: 11, R: -1, Pad: 56},         // floor 10: more fee AND larger exact ratio than a (both orders agree)
-				{Name: "g", Signers: s("S7"), Q: 10, R: -1, Pad: 300},        // floor 9 with the largest fee of all
+				{Name: "a", Signers: s("S1"), Q: 11, R: -1},                // floor 10, the largest fee of floor 10 at the small size
+				{Name: "b", Signers: s("S2"), Q: 10, Pad: 56},              // floor 10, exact 10.0, about twice a's fee
+				{Name: "c", Signers: s("S3"), Q: 10, RHalf: true, Pad: 21}, // floor 10, exact 10.5, fee between a's and b's
+				{Name: "d", Signers: s("S4"), Q: 11},                       // floor 11 with a's fee + 1: above b, c, f although it pays less
+				{Name: "e", Signers: s("S5"), Q: 10},                       // exact 10.0 like b, fee about half of b's
+				{Name: "f", Signers: s("S6"), Q: 11, R: -1, Pad: 56},       // floor 10: more fee AND larger exact ratio than a (both orders agree)
+				{Name: "g", Signers: s("S7"), Q: 10, R: -1, Pad: 300},      // floor 9 with the largest fee of all
 			},
 			Order: []string{"d", "f", "b", "c", "a", "e", "g"},
 			Bal:   map[string]int64{"S1": big, "S2": big, "S3": big, "S4": big, "S5": big, "S6": big, "S7": big},
@@ -94,9 +94,9 @@ func fpbScenarios() []*scenario {
 				{Name: "y1", Signers: s("S5"), Q: 1 << 23, Pad: 300},
 				{Name: "y2", Signers: s("S6"), Q: 1 << 23, R: -1, Pad: 300},
 			},
-			Order: []string{"x2", "x1", "y1", "y0", "y2", "x0"},
-			Bal:   map[string]int64{"S1": big, "S2": big, "S3": big, "S4": big, "S5": big, "S6": big},
-			Caps:  []int{1, 2},
+			Order:  []string{"x2", "x1", "y1", "y0", "y2", "x0"},
+			Bal:    map[string]int64{"S1": big, "S2": big, "S3": big, "S4": big, "S5": big, "S6": big},
+			Caps:   []int{1, 2},
 			Blocks: []op{keepAll},
 		},
 	}
